@@ -246,7 +246,8 @@ void run() {
       maps<INF, T, float>("IncompressibleNewtonianFluid", inc, mu, (T)0);
       maps<INF, T, double>("IncompressibleNewtonianFluid", inc, mu, (T)0);
       maps<INF, T, long double>("IncompressibleNewtonianFluid", inc, mu, (T)0);
-      for (double r : {0.0, 0.001, 0.6, 1.0, 250.0}) {
+      // negative ratios: the coefficient of tr(D) I is a second viscosity and may be negative; the map stays invertible while 2 mu + 3 mu_b != 0
+      for (double r : {0.0, 0.001, 0.6, 1.0, 250.0, -0.25, -2.0}) {
         const T mub = (T)(r * (double)mu);
         const CNF cmp(DynamicViscosity<T>(mu, V), BulkDynamicViscosity<T>(mub, V));
         maps<CNF, T, float>("CompressibleNewtonianFluid", cmp, mu, mub);
@@ -276,7 +277,7 @@ void run() {
   // call histories across model objects: every ordered pair of a small set of fluids (equal shear with different bulk viscosity,
   // bulk equal to shear, bulk zero, another shear viscosity) evaluated back to back in each argument precision
   {
-    const T sp[][2] = {{(T)1.5, (T)0}, {(T)1.5, (T)0.5}, {(T)1.5, (T)1.5}, {(T)3, (T)1.5}, {(T)3, (T)0}, {(T)0.75, (T)1}};
+    const T sp[][2] = {{(T)1.5, (T)0}, {(T)1.5, (T)0.5}, {(T)1.5, (T)1.5}, {(T)3, (T)1.5}, {(T)3, (T)0}, {(T)0.75, (T)1}, {(T)2, (T)-0.5}};
     for (const auto& a : sp)
       for (const auto& b : sp)
         for (const auto* m : {&a, &b}) {
